@@ -2,3 +2,9 @@
 ; accessors of a core.Parent as functions of the interface value (pure, assumed)
 (declare-fun pCommitted (Iface) Int)
 (declare-fun pTimestamp (Iface) Int)
+(declare-fun pVisible (Iface) Bool)
+(declare-fun pChangeset (Iface) Int)
+; verdict of the datasource's NotFound on an error value
+(declare-fun c11Missing (Iface) Bool)
+; childAt[p][i]: the child version last handed to parent p for its reference number i (SetChild)
+; ghost childAt (Array Iface (Array Int Int))
